@@ -38,13 +38,18 @@ class ItemQueue(Generic[WorkItemT]):
         self._unfinished_items = 0
         self._worker_ready_condition = asyncio.Condition()
         self._entry_count = 0
+        self._closed = False
 
     @asyncio.coroutine
     def put_item(self, item: WorkItemT):
-        while self._queue.qsize() > 0:
+        while self._queue.qsize() > 0 and not self._closed:
             yield from self._worker_ready_condition.acquire()
             yield from self._worker_ready_condition.wait()
             self._worker_ready_condition.release()
+
+        if self._closed:
+            # No worker will take the item.
+            return
 
         self._unfinished_items += 1
         self._queue.put_nowait((ITEM_PRIORITY, self._entry_count, item))
@@ -76,6 +81,18 @@ class ItemQueue(Generic[WorkItemT]):
     @property
     def unfinished_items(self) -> int:
         return self._unfinished_items
+
+    @asyncio.coroutine
+    def close(self):
+        '''Stop accepting items and wake up a producer blocked on the queue.
+
+        This instance will not accept items after calling this method.
+        '''
+        self._closed = True
+
+        yield from self._worker_ready_condition.acquire()
+        self._worker_ready_condition.notify_all()
+        self._worker_ready_condition.release()
 
     @asyncio.coroutine
     def wait_for_worker(self):
@@ -148,7 +165,7 @@ class Producer(object):
             if not item and self._item_queue.unfinished_items == 0:
                 self.stop()
                 break
-            elif not item:
+            elif not item and self._running:
                 yield from self._item_queue.wait_for_worker()
 
     def stop(self):
@@ -230,6 +247,9 @@ class Pipeline(object):
         _logger.debug('Waiting for producer to stop.')
 
         self._worker_tasks.clear()
+
+        # The producer may be blocked putting an item that no worker will take.
+        yield from self._item_queue.close()
 
         yield from self._producer_task
 
